@@ -3,6 +3,8 @@
 Abstract value of an expression = frozenset of *labels*:
     'SRC'        the configuration (or something computed from it) that may hold `scheme://user:pw@...`
     ('P', i)     the i-th parameter of the function under analysis (resolved at call sites through the summary)
+    ('Q', i)     the i-th parameter with a constant `scheme://` prefix re-attached (the actual's labels minus NOSCHEME); a sanitizer cleans it
+    ('S', i)     the i-th parameter after a sanitizer: clean unless the actual carries SRC and NOSCHEME (resolved at call sites)
 The empty set is clean. Sanitizers return the empty set. Field sensitivity: reading a *declared* non-URI field of a
 tainted container is clean (declared = annotated in a config class of the package); URI fields are the least fixpoint
 of {sources, outputs, source, output} and every field that some function stores a tainted value into.
@@ -22,6 +24,7 @@ from str, list/tuple and dict by isinstance tests it is a scalar, hence clean.
 from __future__ import annotations
 
 import ast
+import re
 from dataclasses import dataclass, field
 
 from .model import Repo, Module, Unresolved, walk_scope, parent, enclosing_function, enclosing_class, qualname, ancestors
@@ -103,6 +106,7 @@ class TaintEngine:
         self.by_node: dict[int, FnInfo] = {}
         self.summ: dict[str, Summary] = {}
         self.attr: dict[tuple, frozenset] = {}
+        self.attr_keys: dict[tuple, frozenset] = {}
         self.attr_shape: dict[tuple, list] = {}     # (class, attr) -> per-position labels of the tuples appended to that list
         self.seeds: dict[str, dict] = {}          # fn key -> {param name: labels} for constructors / methods of helper classes
         self.uri_fields = set(BASE_URI_FIELDS)
@@ -179,8 +183,9 @@ class TaintEngine:
         if isinstance(f, ast.Attribute):
             base = f.value
             # self.method / cls.method
-            if isinstance(base, ast.Name) and base.id in ('self', 'cls') and fi.cls is not None:
-                m = self._method(f'{fi.mod.relpath}::{qualname(fi.cls)}', f.attr)
+            owner = fi.cls if fi.cls is not None else (enclosing_class(fi.node) if 'self' not in fi.params[:1] else None)   # a closure inside a method sees that method's self
+            if isinstance(base, ast.Name) and base.id in ('self', 'cls') and owner is not None:
+                m = self._method(f'{fi.mod.relpath}::{qualname(owner)}', f.attr)
                 if m is not None:
                     return ('fn', m, None)
                 return None
@@ -305,6 +310,15 @@ class TaintEngine:
             self.attr[(clskey, attr)] = new
             self.changed = True
 
+    def set_attr_keys(self, clskey, attr, labels):
+        """labels of the KEYS stored into the dict-like attribute (joined); an attribute with a key record hands EMPTY-or-these to
+        the key side of `for k, v in self.attr.items()` instead of the value labels"""
+        old = self.attr_keys.get((clskey, attr))
+        new = (old or EMPTY) | labels
+        if old is None or new != old:
+            self.attr_keys[(clskey, attr)] = new
+            self.changed = True
+
     def set_attr_shape(self, clskey, attr, shape):
         old = self.attr_shape.get((clskey, attr))
         if old is None:
@@ -345,6 +359,7 @@ class _Analysis:
         self.handler_stack: list[list] = []     # collected raise labels of the enclosing try bodies
         self.narrow: dict[str, set] = {}
         self._ret_elts = None
+        self.clskey = None
 
     # .................................................................................................. driver
 
@@ -363,7 +378,7 @@ class _Analysis:
             if p == 'config' and clskey in eng.filter_classes:
                 lab |= frozenset([SRC])
             env[p] = lab
-        self.clskey = clskey
+        self.clskey = clskey if clskey is not None else getattr(self, 'clskey', None)   # a nested closure keeps the class of the method it is defined in
         self.block(fi.node.body, env)
         self.sum.ret_elts = self._ret_elts if isinstance(self._ret_elts, list) else None
         return self.sum
@@ -564,10 +579,22 @@ class _Analysis:
                 env[root.id] = env.get(root.id, EMPTY) | labels
             if isinstance(base, ast.Attribute) and isinstance(base.value, ast.Name) and base.value.id == 'self' and self.clskey is not None:
                 self.eng.set_attr(self.clskey, base.attr, self._concrete(labels))
+                self.eng.set_attr_keys(self.clskey, base.attr, self._concrete(self.ev_quiet(tgt.slice, env)))
             return
 
     def assign_iter(self, target, iter_node, labels, env):
         """bind a loop / comprehension target; zip(), enumerate() and nested tuple targets are unpacked element-wise"""
+        if isinstance(target, (ast.Tuple, ast.List)) and len(target.elts) == 2 and isinstance(iter_node, ast.Call) and isinstance(iter_node.func, ast.Attribute) \
+                and iter_node.func.attr == 'items' and not iter_node.args and isinstance(iter_node.func.value, ast.Attribute) \
+                and isinstance(iter_node.func.value.value, ast.Name) and iter_node.func.value.value.id == 'self' and self.clskey is not None:
+            keys = None
+            for k in [self.clskey] + [b[1] for b in self._all_bases(self.clskey)]:
+                if (k, iter_node.func.value.attr) in self.eng.attr_keys:
+                    keys = (keys or EMPTY) | self.eng.attr_keys[(k, iter_node.func.value.attr)]
+            if keys is not None:       # the keys of this dict are known: they do not inherit the labels of the values
+                self.assign(target.elts[0], keys, env, None)
+                self.assign(target.elts[1], labels, env, None)
+                return
         if isinstance(target, (ast.Tuple, ast.List)) and isinstance(iter_node, ast.Call) and isinstance(iter_node.func, ast.Name):
             fn = iter_node.func.id
             if fn == 'zip' and len(iter_node.args) == len(target.elts) and not any(isinstance(a, ast.Starred) for a in iter_node.args):
@@ -695,14 +722,31 @@ class _Analysis:
 
     def ev_JoinedStr(self, node, env):
         out = EMPTY
-        for v in node.values:
+        for i, v in enumerate(node.values):
             if isinstance(v, ast.FormattedValue):
                 lab = self.ev(v.value, env)
                 spec = U(v.format_spec) if v.format_spec is not None else ''
                 if spec and any(ch in spec for ch in 'dfeEgGxXob%') and not any(ch in spec for ch in 's'):
                     lab = EMPTY      # numeric format spec: the value is a number
+                if i == 1 and self._scheme_prefix(node.values[0]):
+                    lab = self._reprefixed(lab)          # f'file://{path}': the scheme the masks anchor on is back
                 out |= lab
         return out
+
+    @staticmethod
+    def _reprefixed(lab):
+        # ('Q', p): parameter p with a scheme re-attached - resolved at call sites as the actual's labels without NOSCHEME
+        return frozenset(('Q', l[1]) if isinstance(l, tuple) and l[0] == 'P' else l for l in lab) - frozenset([NOSCHEME])
+
+    @staticmethod
+    def _scheme_prefix(node):
+        return isinstance(node, ast.Constant) and isinstance(node.value, str) and re.fullmatch(r'[A-Za-z][A-Za-z0-9+.\-]*://', node.value) is not None
+
+    def ev_BinOp(self, node, env):
+        l, r = self.ev(node.left, env), self.ev(node.right, env)
+        if isinstance(node.op, ast.Add) and self._scheme_prefix(node.left):
+            r = self._reprefixed(r)                      # 'file://' + path
+        return l | r
 
     def ev_Attribute(self, node, env):
         key = U(node)
@@ -754,7 +798,7 @@ class _Analysis:
             return EMPTY
         if bl and SRC in bl and isinstance(node.slice, ast.Constant) and node.slice.value in self.eng.uri_fields:
             return bl | frozenset([URI])
-        if bl and SRC in bl and isinstance(node.slice, ast.Slice) and isinstance(node.slice.lower, ast.Constant) and isinstance(node.slice.lower.value, int) and node.slice.lower.value >= 3 \
+        if bl and isinstance(node.slice, ast.Slice) and isinstance(node.slice.lower, ast.Constant) and isinstance(node.slice.lower.value, int) and node.slice.lower.value >= 3 \
                 and node.slice.upper is None:
             return bl | frozenset([NOSCHEME])
         return bl
@@ -811,9 +855,11 @@ class _Analysis:
         fname = f.id if isinstance(f, ast.Name) else f.attr if isinstance(f, ast.Attribute) else ''
         # sanitizers
         if fname in SANITIZERS:
-            if NOSCHEME in allargs and SRC in allargs:
-                return allargs      # masking a URI whose scheme was already cut off is a no-op: still tainted
-            return EMPTY
+            if NOSCHEME in allargs:
+                return allargs      # masking a URI whose scheme was already cut off is a no-op: still tainted (placeholders stay unsanitised)
+            # a sanitised parameter is clean unless the caller passes a value whose scheme was cut off: ('S', p) is resolved
+            # at the call site (tainted iff the actual carries SRC and NOSCHEME)
+            return frozenset(('S', l[1]) for l in allargs if isinstance(l, tuple) and l[0] in ('P', 'S'))
         # sinks
         self._check_sink(node, fname, f, args, kwargs, env)
         # once(logger.warning, msg, ...)
@@ -914,6 +960,14 @@ class _Analysis:
                 out.add(l)
             elif isinstance(l, tuple) and l[0] == 'P':
                 out |= bound.get(l[1], EMPTY)
+            elif isinstance(l, tuple) and l[0] == 'Q':
+                out |= frozenset(('Q', x[1]) if isinstance(x, tuple) and x[0] == 'P' else x for x in bound.get(l[1], EMPTY)) - frozenset([NOSCHEME])
+            elif isinstance(l, tuple) and l[0] == 'S':
+                b = bound.get(l[1], EMPTY)
+                if NOSCHEME in b:
+                    out |= b        # the sanitizer saw a value without its scheme: a no-op
+                else:
+                    out |= frozenset(('S', x[1]) for x in b if isinstance(x, tuple) and x[0] in ('P', 'S'))
         return frozenset(out)
 
     def _call_fn(self, node, callee: FnInfo, args, kwargs, env):
